@@ -394,6 +394,50 @@ def mk_determinism(which):
   return h_determinism
 
 
+def h_shortest_path_other_shapes(sx):
+    """the shortest-path shaping is a function of the triple alone: the same question asked after evaluating the reward on a
+    grid of ANOTHER shape with the same row-major walkability pattern (a memo keyed too coarsely would collide) gets the oracle's answer"""
+    from gym_gridverse.agent import Agent
+    from gym_gridverse.geometry import Orientation
+    from gym_gridverse.grid import Grid
+    n = 12
+    shapes_ = [(2, 6), (3, 4), (4, 3), (6, 2)]
+    walk = [True] * n
+    for i in (2, 5, 7, 8, 10):  # a few cells carry a symbolic wall
+        walk[i] = not bool(sx.bool(f'wall{i}'))
+
+    def build(shape, agent):
+        H, W = shape
+        rows = [[Floor() if walk[y * W + x] else Wall() for x in range(W)] for y in range(H)]
+        g = Grid(rows)
+        g[1, 1] = Exit()
+        return State(g, Agent(Position(*agent), Orientation.F))
+
+    first = sx.choice('first', shapes_)
+    second = sx.choice('second', shapes_)
+    sx.assume(first != second)
+    q = partial(RF.getting_closer_shortest_path, object_type=Exit, reward_closer=2.0, reward_further=-5.0)
+    # warm-up evaluation on the first shape
+    s0 = build(first, (0, 0))
+    q(s0, Action.MOVE_RIGHT, transition_with_copy(transition('move_agent'), s0, Action.MOVE_RIGHT))
+    # the question, on the second shape
+    H, W = second
+    ay = int(sx.int('ay', 0, H - 1))
+    ax = int(sx.int('ax', 0, W - 1))
+    sx.assume(walk[ay * W + ax] or (ay, ax) == (1, 1))
+    a = sx.choice('a', [Action.MOVE_FORWARD, Action.MOVE_BACKWARD, Action.MOVE_LEFT, Action.MOVE_RIGHT])
+    t0 = build(second, (ay, ax))
+    t1 = transition_with_copy(transition('move_agent'), t0, a)
+    got = q(t0, a, t1)
+    passable = [[not blocks_movement(t0.grid.objects[y][x]) for x in range(W)] for y in range(H)]
+    dist = bfs(passable, (1, 1), H, W)
+    d0 = dist.get((ay, ax), math.inf)
+    d1 = dist.get((int(t1.agent.position.y), int(t1.agent.position.x)), math.inf)
+    exp = 2.0 if d1 < d0 else -5.0 if d1 > d0 else 0.0
+    sx.cover('after-another-shape')
+    sx.check(got == exp, 'shortest-path-reward-independent-of-earlier-calls', f'{first}->{second} agent {(ay, ax)} {a.name}: d {d0}->{d1} got {got} expected {exp}')
+
+
 def obligations(tier):
     q = tier == 'quick'
     sigma = SIGMA_2C if q else SIGMA_FULL
@@ -430,6 +474,7 @@ def obligations(tier):
         obs.append(Obligation(f'reach_exit_memory-{H}x{W}', mk_memory(H, W), dict(H=H, W=W, alphabet=[e[0] for e in MEM])))
     for n in range(0, 5 if q else 6):
         obs.append(Obligation(f'combinators-{n}', mk_combinators(n), dict(components=n)))
+    obs.append(Obligation('shortest-path-after-other-shapes', h_shortest_path_other_shapes, dict(shapes='2x6, 3x4, 4x3, 6x2 with equal row-major walkability')))
     obs.append(Obligation('wiring-functional_step', h_wiring))
     for which in ['reach_exit', 'bump_into_wall', 'actuate_door', 'pickndrop', 'bump_moving_obstacle']:
         obs.append(Obligation(f'determinism-twice-{which}', mk_determinism(which), dict(component=which)))
